@@ -32,7 +32,8 @@ package baseapp
 // handler flushes nothing and runs no message; a failing message keeps the ante effects (fee) but
 // its own writes are not flushed
 //@ func (*BaseApp).runTx
-//@   props C11,C15,C12
+//@   props C11,C15,C16,C12
+//@   requires [delivered-bytes-recorded-first] mode == 2 ==> has(app.transactionCache, txKeyOf(bytes(txBytes), 2))
 //@   modifies all
 //@   logs runTxN == old(runTxN) + 1
 //@   logs runTxMode == mode
